@@ -193,8 +193,12 @@ func (r *Recorder) Observe(caseJSON []byte, v *Verdict) bool {
 	if v.Sig == "" {
 		return false
 	}
-	if r.known[v.Sig] {
+	if r.known[v.Sig] || (os.Getenv("VERIF_TOLERATE_ALL") != "" && !strings.HasPrefix(v.Sig, "HARNESS")) {
+		// VERIF_TOLERATE_ALL is a triage aid (never set by the registered commands): survey all failure signatures in one run
 		r.sum.KnownHits[v.Sig]++
+		if len(r.sum.Notes) < 40 && r.sum.KnownHits[v.Sig] == 1 {
+			r.sum.Notes = append(r.sum.Notes, v.Sig+": "+firstLines(v.Msg, 3)+" CASE "+string(caseJSON))
+		}
 		return false
 	}
 	r.lastFail = &failure{Sig: v.Sig, Msg: v.Msg, Case: append([]byte(nil), caseJSON...)}
@@ -375,4 +379,12 @@ func replay[C any](t *testing.T, r *Recorder, file string, judge func(C) *Verdic
 	if r.Observe(cb, v) {
 		t.Errorf("VIOLATION sig=%s %s", v.Sig, v.Msg)
 	}
+}
+
+func firstLines(s string, n int) string {
+	parts := strings.SplitN(s, "\n", n+1)
+	if len(parts) > n {
+		parts = parts[:n]
+	}
+	return strings.Join(parts, " | ")
 }
